@@ -126,6 +126,44 @@ pub fn panic_key(msg: &str) -> String {
     out
 }
 
+// ------------------------------------------------------------------------------------------------
+// watchdog: a case that does not terminate is a finding, not a hung check
+// ------------------------------------------------------------------------------------------------
+
+static WATCH: std::sync::Mutex<Vec<(std::thread::ThreadId, String, std::time::Instant)>> = std::sync::Mutex::new(Vec::new());
+
+/// Name the case the calling thread is about to run (`unwatch` when it returned). If a case is still running
+/// `limit` seconds later, the watchdog writes `<dir>/hang.json` (key, what, replay = the case) and ends the
+/// process with exit code 3; the runner turns that file into an oracle violation with the case as replay.
+pub fn watch(desc: String) {
+    let id = std::thread::current().id();
+    let mut w = WATCH.lock().unwrap();
+    w.retain(|e| e.0 != id);
+    w.push((id, desc, std::time::Instant::now()));
+}
+pub fn unwatch() {
+    let id = std::thread::current().id();
+    WATCH.lock().unwrap().retain(|e| e.0 != id);
+}
+pub fn start_watchdog(dir: &str, limit_secs: u64) {
+    let dir = dir.to_string();
+    std::thread::spawn(move || loop {
+        std::thread::sleep(std::time::Duration::from_millis(500));
+        let cur = WATCH.lock().unwrap().clone();
+        for (_, desc, t0) in cur {
+            if t0.elapsed().as_secs() >= limit_secs {
+                let s = format!(
+                    "{{\"key\":\"non-termination\",\"what\":{},\"replay\":[{}]}}",
+                    json_str(&format!("a call into the implementation did not return within {limit_secs} s")),
+                    json_str(&desc)
+                );
+                let _ = std::fs::write(format!("{dir}/hang.json"), s);
+                std::process::exit(3);
+            }
+        }
+    });
+}
+
 pub struct Violation {
     /// stable identifier of the failing input/history (matched against known-findings.txt)
     pub key: String,
